@@ -8,10 +8,10 @@ CONSTANTS
   OldEvents = FALSE
   BadEvents = FALSE
   FoUuid <- Fo10
-  Savers = {"p", "c"}
+  Savers = {"p"}
   MaxSaves = 2
   MaxCrash = 1
-  MaxAcks = 2
+  MaxAcks = 1
   MaxGen = 2
   MaxNotify = 0
   MaxEnds = 0
@@ -31,5 +31,5 @@ CONSTANTS
   Gaps = {}
   Bugs = {}
 VIEW view
-INVARIANTS C01 C03 C04 C05 C06 C11 C14 StoreAgrees
+INVARIANTS C01 C03 C04 C05 C06 C08 C11 C12 C13 C14 C15 StoreAgrees
 CHECK_DEADLOCK FALSE
